@@ -52,7 +52,7 @@ func c09Find(d vDoc) (planted []c09Planted, fillerBeforeFirst bool) {
 	return
 }
 
-var c09BadValues = []string{"bar", "1,5", "1.2.3", "5 g", "12abc", "--5", "1e", "e5", "0..5", "½", "１２", "5%", "abc def", "$3", "+", "+.", "-.", ".", "e", "+e1", "0x", "1e+", "+-1", "5;", "1:2"}
+var c09BadValues = []string{"bar", "1,5", "1.2.3", "5 g", "12abc", "--5", "1e", "e5", "0..5", "½", "１２", "5%", "abc def", "$3", "+", "+.", "-.", ".", "e", "+e1", "0x", "1e+", "+-1", "5;", "1:2", "1e999", "-2e308", "1e309", "0x1p2000"}
 
 func genC09Malformed(t *rapid.T, names []string, label string) string {
 	indent := vIndents[rapid.IntRange(0, len(vIndents)-1).Draw(t, label+".indent")]
@@ -324,7 +324,105 @@ func genC09(t *rapid.T) c09Case {
 	return c
 }
 
-func init() { vRegister("C09", "c09.random", checkC09) }
+func init() {
+	vRegister("C09", "c09.random", checkC09)
+	vRegister("C09", "c09.huge", checkC09Huge)
+}
+
+
+// ---------------------------------------------------------------------------
+// huge files: one malformed line far beyond every buffer and size mark a reader may have (4 KiB, 64 KiB, 1 MiB,
+// 32 MiB), followed by more well-formed records
+
+type c09HugeCase struct {
+	KiB   int  `json:"kib"`
+	IsLog bool `json:"islog"`
+	Cmd   int  `json:"cmd"`
+}
+
+var c09HugeLogCmds = [][]string{{"lint", "@F@"}, {"csv", "log"}, {"print"}, {"report", "quantity"}, {"reg"}, {"stats"}}
+var c09HugeBookCmds = [][]string{{"lint", "@F@"}, {"csv", "database"}, {"report", "element-total", "x"}, {"reg"}, {"stats"}}
+
+func checkC09Huge(c c09HugeCase, ctx *vCtx) *vFailure {
+	var sb strings.Builder
+	line := 0
+	for i := 0; sb.Len() < c.KiB*1024; i++ {
+		if c.IsLog {
+			sb.WriteString(vFmtDay(i%20000, "") + ":\n")
+			fmt.Fprintf(&sb, "  food%d: 1\n", i%13)
+		} else {
+			fmt.Fprintf(&sb, "recipe%d:\n  x: %d\n", i, i%9+1)
+		}
+		line += 2
+	}
+	bad := "  this entry has no value"
+	sb.WriteString(bad + "\n")
+	line++
+	if c.IsLog {
+		sb.WriteString("2099/01/01:\n  food1: 1\n")
+	} else {
+		sb.WriteString("lastrecipe:\n  x: 1\n")
+	}
+	huge := vWriteFile("c09-huge.yaml", sb.String())
+	small := vWriteFile("c09-huge-other.yaml", map[bool]string{true: "r:\n  x: 1\n", false: "2021/01/01:\n  r: 1\n"}[c.IsLog])
+	cmds := c09HugeBookCmds
+	lp, bp := small, huge
+	if c.IsLog {
+		cmds, lp, bp = c09HugeLogCmds, huge, small
+	}
+	cmd := cmds[c.Cmd%len(cmds)]
+	args := []string{"--today", vToday, "-d", bp, "-l", lp}
+	for _, a := range cmd {
+		args = append(args, strings.ReplaceAll(a, "@F@", huge))
+	}
+	r := vRunApp(vInvocation{Args: args})
+	ctx.Run(1)
+	ctx.NonTrivial(true)
+	ctx.Labelf("size>=%dKiB", c.KiB)
+	if r.Panic != "" {
+		return vFailf("%v crashes on a %d KiB file: %s", cmd, c.KiB, vTrunc(r.Panic, 800))
+	}
+	want := c09Planted{Line: line, Text: bad}
+	if cmd[0] == "lint" {
+		lines := vLines(r.Stdout)
+		if len(lines) != 1 || c09Message(lines[0], want) != "" || !r.Failed {
+			return vFailSig("C09/huge/lint", "lint of a %d KiB file whose line %d is malformed: failed=%v, printed %q", c.KiB, line, r.Failed, vTrunc(r.Stdout, 400))
+		}
+		return nil
+	}
+	if !r.Failed {
+		return vFailSig("C09/huge/no-failure", "%v succeeds although line %d of its %d KiB %s is malformed (%q)", cmd, line, c.KiB, map[bool]string{true: "log", false: "book"}[c.IsLog], bad)
+	}
+	if msg := c09Message(r.Err, want); msg != "" {
+		return vFailf("%v on a %d KiB file: error %q %s", cmd, c.KiB, vTrunc(r.Err, 300), msg)
+	}
+	return nil
+}
+
+func TestVerifC09Huge(t *testing.T) {
+	sizes := []int{70, 300, 1100, 33 * 1024}
+	if vThorough() {
+		sizes = append(sizes, 5*1024, 65*1024, 130*1024)
+	}
+	var space []c09HugeCase
+	for _, kib := range sizes {
+		for _, isLog := range []bool{true, false} {
+			n := len(c09HugeBookCmds)
+			if isLog {
+				n = len(c09HugeLogCmds)
+			}
+			for ci := 0; ci < n; ci++ {
+				if kib >= 32*1024 && !vThorough() && ci > 2 {
+					continue // quick: three commands on the files above 32 MiB
+				}
+				space = append(space, c09HugeCase{KiB: kib, IsLog: isLog, Cmd: ci})
+			}
+		}
+	}
+	vEnum(t, "C09", "c09.huge",
+		"logs and books of 70 KiB, 300 KiB, 1.1 MiB and 33 MiB (thorough: also 5, 65 and 130 MiB) whose only malformed line lies at the end of that much well-formed text, followed by one more record; lint and 4-5 commands; the error must name that line number and quote the line",
+		fmt.Sprintf("%d (size, file, command) combinations", len(space)), len(space), func(i int) c09HugeCase { return space[i] }, checkC09Huge)
+}
 
 func TestVerifC09Random(t *testing.T) {
 	vRapid(t, "C09", "c09.random",
